@@ -234,7 +234,7 @@ def to_ent(d):
 
 def gen_cases(rep):
     r = vlib.rng(rep.seed, "C02")
-    per = 40 if rep.tier == "quick" else 600
+    per = 100 if rep.tier == "quick" else 1500
     out = []
     for fmt, spec in FORMATS.items():
         for k in range(per):
